@@ -422,3 +422,42 @@ pub use number::Number;
 
 #[cfg(test)]
 mod tests;
+
+/// Verification hooks; compiled only with the `verif-hooks` feature and not part of
+/// the public API.
+#[cfg(feature = "verif-hooks")]
+#[doc(hidden)]
+pub mod verif {
+    use std::sync::atomic::{AtomicU64, Ordering};
+
+    /// Number of unchecked UTF-8 conversion sites carrying a hook.
+    pub const SITES: usize = 5;
+
+    /// Payload prefix of the panic raised when a site is handed ill-formed bytes.
+    pub const PANIC_PREFIX: &str = "lexpr_verif: ill-formed UTF-8 before unchecked conversion";
+
+    static SITE_HITS: [AtomicU64; SITES] = [
+        AtomicU64::new(0),
+        AtomicU64::new(0),
+        AtomicU64::new(0),
+        AtomicU64::new(0),
+        AtomicU64::new(0),
+    ];
+
+    /// Validate the bytes about to be converted without a check at `site`.
+    pub fn check_utf8(site: usize, bytes: &[u8]) {
+        SITE_HITS[site].fetch_add(1, Ordering::Relaxed);
+        if std::str::from_utf8(bytes).is_err() {
+            panic!("{} at site {}: {:?}", PANIC_PREFIX, site, bytes);
+        }
+    }
+
+    /// How often each site has been reached in this process.
+    pub fn site_hits() -> [u64; SITES] {
+        let mut hits = [0; SITES];
+        for (hit, counter) in hits.iter_mut().zip(SITE_HITS.iter()) {
+            *hit = counter.load(Ordering::Relaxed);
+        }
+        hits
+    }
+}
